@@ -6,6 +6,20 @@ fn exec_code_roundtrip<T, E: IntError>(res: Result<T, E>) -> (r: Result<(), E>)
     let code = into_int_result(res);
     from_int_result_empty::<E>(code)
 }
+// the error value itself: encoded by the error type's OWN conversion, decoded by its OWN inverse,
+// applied to exactly the code that was returned (nothing added, negated or truncated in between)
+fn exec_error_roundtrip<T, E: IntError>(e: E) -> (r: Result<(), E>)
+    ensures r is Err, r->Err_0 == E::from_code_spec(e.code_spec())
+{
+    let code = into_int_result::<T, E>(Err(e));
+    from_int_result_empty::<E>(code)
+}
+// the unit error type of the library: every failure is code 1
+fn exec_unit_error_code<T>(res: Result<T, ()>) -> (r: i32)
+    ensures r == (if res is Ok { 0i32 } else { 1i32 })
+{
+    into_int_result(res)
+}
 // vacuity canary: must FAIL
 fn canary_c13_must_fail<T, E: IntError>(res: Result<T, E>) -> (r: i32)
     ensures r == 0
